@@ -330,23 +330,23 @@ pub proof fn lemma_fp_from_mont_post(a: int, res: int)
     lemma_fp_small(res, P()); lemma_fp_small(fev(a), P());
 }
 // ---------------------------------------------------------------- powers
-pub proof fn lemma_pow_mod_range(x: int, e: nat, m: int) requires m > 0 ensures 0 <= pow_mod(x, e, m) < m decreases e
+pub proof fn lemma_fp_pow_mod_range(x: int, e: nat, m: int) requires m > 0 ensures 0 <= pow_mod(x, e, m) < m decreases e
 {
     if e == 0 { lemma_fp_mod_range(1, m); } else { lemma_fp_mod_range(pow_mod(x, (e - 1) as nat, m) * x, m); }
 }
-pub proof fn lemma_pow_mod_add(x: int, j: nat, k: nat, m: int) requires m > 0
+pub proof fn lemma_fp_pow_mod_add(x: int, j: nat, k: nat, m: int) requires m > 0
     ensures pow_mod(x, j + k, m) == (pow_mod(x, j, m) * pow_mod(x, k, m)) % m
     decreases k
 {
     let pj = pow_mod(x, j, m);
-    lemma_pow_mod_range(x, j, m);
+    lemma_fp_pow_mod_range(x, j, m);
     if k == 0 {
         lemma_mul_mod_noop_general(pj, 1, m);
         assert(pj * 1 == pj);
         lemma_fp_small(pj, m);
     } else {
         let k1 = (k - 1) as nat;
-        lemma_pow_mod_add(x, j, k1, m);
+        lemma_fp_pow_mod_add(x, j, k1, m);
         let pk1 = pow_mod(x, k1, m);
         assert((j + k - 1) as nat == j + k1);
         lemma_mul_mod_noop_general(pj * pk1, x, m);
@@ -376,7 +376,7 @@ pub proof fn lemma_fp_pow_step(x: int, pre: nat, hv: int, pw: int, top: int, bit
     ensures 2 * pre + bit == hv * (2 * pw) + (2 * top + bit), fnew == pow_mod(x, (2 * pre + bit) as nat, P())
 {
     lemma_params();
-    lemma_pow_mod_add(x, pre, pre, P());
+    lemma_fp_pow_mod_add(x, pre, pre, P());
     assert(hv * (2 * pw) == 2 * (hv * pw)) by(nonlinear_arith);
     assert(pre + pre == 2 * pre);
     if bit == 1 {
@@ -443,6 +443,7 @@ fn fp_pow(a: &U256, e: &U256) -> (r: U256)
         }
         proof {
             lemma_fp_p2_64();
+            assert(w0 * pw == w0 * 0x1_0000_0000_0000_0000int) by(nonlinear_arith) requires pw == 0x1_0000_0000_0000_0000int;
             assert(top == w0);
             assert(w0 == e@[3 - k] as int);
         }
